@@ -10,6 +10,7 @@
 //	verifYield before and after every storeState(...) statement
 //	verifYield at entry of state.clone, appendHandler, removeHandler, addRule, addConnHandler, processFile
 //	verifYield after every assignment whose right-hand side calls loadState()
+//	verifYield after every assignment whose right-hand side calls NewStream(...) (the proxy's backend stream)
 package main
 
 import (
@@ -179,6 +180,18 @@ func main() {
 							}
 							return true
 						})
+					}
+					// (only where the call itself is the statement's right-hand
+					// side: not a function literal that contains one)
+					if len(st.Rhs) == 1 {
+						if c, ok := st.Rhs[0].(*ast.CallExpr); ok {
+							if _, name := selCall(c); name == "NewStream" {
+								// the backend may act (refuse the call, answer first)
+								// between the opening of its stream and the first
+								// message sent on it
+								add(st.End(), fmt.Sprintf("; verifYield(%q)", site(fname, "after-newstream")))
+							}
+						}
 					}
 					if calls {
 						// before as well: a reader that loads the state a second
